@@ -4,7 +4,7 @@ from __future__ import annotations
 import ast
 from typing import Dict, List, Optional, Set
 
-from ..astutil import Inliner, ancestors, attr_chain, call_name, match, returns_of, set_parents, stmts_of
+from ..astutil import Inliner, ancestors, attr_chain, call_name, match, returns_of, set_parents, stmts_of, statement_texts
 from ..closedform import classify
 from ..core import OK, UNDECIDED, VIOLATION, AnalysisError, ClassInfo, FuncInfo, Repo, Report, unparse
 from ..fecrules import ENC, LIN, SYS, UTL, block_matmul_rule, tstr_lint, verified_return_rule
@@ -233,7 +233,7 @@ def rule_null_space(repo: Repo, rep: Report) -> int:
         rep.expect("other != row and reduced[other, col] != 0" in conds, "VERIFIED-RETURN", h, "eliminate every other row with a 1 in the pivot column", "reduced (not just echelon) form", "the pivot column is not cleared in all other rows")
         n += 1
         # null-space basis construction from the reduced form
-        body = {unparse(s) for s in stmts_of(fi.body)}
+        body = set(statement_texts(fi))
         needed = ["null_space[row_idx, free_col] = 1", "null_space[row_idx, pivot_col] = 1", "free_columns = [j for j in range(n) if j not in pivots]"]
         # recognised wrong idiom: the pivot part of a basis vector written to a PREFIX of the columns
         for st_ in ast.walk(fi.node):
